@@ -132,6 +132,8 @@ def accept_bit(s):
 def build_cases(tier, seed):
     n_lex, n_rand, n_ty, n_gen = (1200, 100, 9000, 400) if tier == "quick" else (30000, 2000, 300000, 20000)
     cases = list(T.stream(seed, n_lex, n_rand))
+    from .. import eqstress as E
+    cases += E.programs()
     from .. import smallprogs as SP
     cases += list(SP.stream(seed + 1, None))   # exhaustive name-confusion shapes
     rng = random.Random(seed + 7)
